@@ -147,7 +147,10 @@ func (w *World) setup() {
 	for i, nd := range w.nodes {
 		if nd.byz {
 			w.byz[i] = &Byz{idx: i, realShares: map[int][]byte{}, torsionFor: -1, bias: map[string]int{}}
-			if c.Bool(1, 2, "byz.biased") || w.o.Mode == "adv" {
+			if fermat {
+				// the torsion pair is this participant's ONLY misbehaviour: anything else would get
+				// the dealer disqualified for an unrelated reason
+			} else if c.Bool(1, 2, "byz.biased") || w.o.Mode == "adv" {
 				// swarm: this participant misbehaves systematically on some message kinds, so that
 				// COMBINATIONS (held-back vector + malformed share + wrong answer ...) are not rare
 				// weights over the actions 1 omit, 2 late, 3 duplicate, 4 malformed, 5 inconsistent, 6 hold back
@@ -173,7 +176,9 @@ func (w *World) setup() {
 			}
 			if w.isDealer(i) {
 				w.makeShadow(w.byz[i], seeds.Bytes(32))
-				if c.Bool(1, 8, "truncattack") {
+				if fermat {
+					// no other template
+				} else if c.Bool(1, 8, "truncattack") {
 					w.makeTruncated(w.byz[i], seeds.Bytes(32), 1+c.Choose(w.t, "trunc.k"))
 				} else if w.t >= 2 && c.Bool(1, 8, "torsionattack") {
 					w.byz[i].torsionFor = c.Choose(w.n, "torsion.for")
@@ -193,7 +198,7 @@ func (w *World) setup() {
 	w.badAnswer = map[int]bool{}
 	w.shareFirst = map[int]*Msg{}
 	w.faultBudget = 0
-	if f > 0 {
+	if f > 0 && !fermat {
 		w.faultBudget = []int{1, 1, 2, 3, 6, 1000}[c.Choose(6, "faultbudget")]
 		w.pFault = []int{1, 2, 4, 8}[c.Choose(4, "pfault")]
 		// unsolicited actions per round
